@@ -7,6 +7,15 @@ TB = ("Trusted: Lean 4.33 kernel (propext, Classical.choice, Quot.sound only); S
       "The theorems are about the Lean model; the model is tied to /repo by regenerated tables (translator) and by "
       "differential execution (harness) on every run.")
 claimed = {
+ "C14": dict(
+   text="Lean theorems: base64url (RawURLEncoding) round-trips for all byte strings, its output stays in the URL-safe alphabet without padding, and decoding rejects '=', "
+        "'+', '/', spaces, any other non-alphabet byte and lengths 1 mod 4; for the schema-driven JSON encoder/decoder, Unmarshal(Marshal v) = norm v for every "
+        "well-typed value of each of the eleven wire types (general member_roundtrip by induction on nesting, for any schema table with distinct member names), binary "
+        "members are exactly unpadded base64url strings, nullable ones null when empty, timeouts integer milliseconds, an error in any member at any nesting level "
+        "fails the whole Unmarshal, re-marshalling is stable. Tie: the wire schemas are hand-written from WebAuthn L2; the translator's facts about every "
+        "MarshalJSON/UnmarshalJSON (shadowed members, Go types, JSON tags, helper calls, receiver kinds), the struct tags and the four base64 helpers are regenerated and "
+        "pinned; random values and malformed binary members are run through encoding/json + the real methods and compared with the model.",
+   ref="DESIGN.md §8 C14", technique="Lean 4 proof (codec round trips, schema-generic) over pinned regenerated method facts + differential execution"),
  "C03": dict(
    text="Lean theorems: the signed messages are injective functions of the covered fields for all lengths (authData || hash with fixed hash length; the fido-u2f "
         "message with a variable-length credential id in the middle); for each signed format acceptance implies that the binding oracle answered positively on exactly "
